@@ -132,7 +132,7 @@ def check_case(ctx, out, desc, exact, origin):
         return
     res = drv.call('spec_circuit', net=jnet, report=report)
     scale = max([abs(x) for x in list(pot.values()) + list(v.values()) + list(i.values())] + [1.0])
-    ymax = max([abs(core.cfloat(b['e']['a'])) for b in jnet['branches']] + [1.0])
+    ymax = gen_net.ymax_json(jnet)
     tol = 1e-9 * scale * max(1.0, ymax)
     bad = {}
     if abs(core.cfloat(res['ref'])) > 0: bad['ref'] = res['ref']
